@@ -75,6 +75,9 @@ func buildFromDefinition(def *configDefinition, lc *loaderContext) (cfg *Config,
 	cfg = NewConfig()
 
 	for k, v := range def.Contexts {
+		if v == nil {
+			v = &contextDefinition{}
+		}
 		cfg.Contexts[k], err = buildContext(v)
 		if err != nil {
 			return nil, err
@@ -82,16 +85,22 @@ func buildFromDefinition(def *configDefinition, lc *loaderContext) (cfg *Config,
 	}
 
 	for k, v := range def.Tasks {
+		if v == nil {
+			v = &taskDefinition{}
+		}
 		cfg.Tasks[k], err = buildTask(v, lc)
+		if err != nil {
+			return nil, fmt.Errorf("task %s: %w", k, err)
+		}
 		if cfg.Tasks[k].Name == "" {
 			cfg.Tasks[k].Name = k
-		}
-		if err != nil {
-			return nil, err
 		}
 	}
 
 	for k, v := range def.Watchers {
+		if v == nil {
+			return nil, fmt.Errorf("watcher %s is empty", k)
+		}
 		t := cfg.Tasks[v.Task]
 		if t == nil {
 			return nil, fmt.Errorf("no such task %s", v.Task)
